@@ -45,12 +45,43 @@ def parseDraw (t : String) : Option Draw :=
       else (((String.ofList rest).splitOn ",").mapM bytesOfHex).map Draw.strs
     | _ => none
 
+/-- a scalar `Val` token: `b<hex>` (bit pattern), `s<hex>` / `S<hex>` (bytes; `S`: the non-nil flag set) -/
+def parseScalarTok (t : String) : Option Val :=
+  match parseVal 1 [t] with
+  | some (.bits n, []) => some (.bits n)
+  | some (.blob f b, []) => some (.blob f b)
+  | _ => none
+
+/-- `m<kind>=<valtoken>`: the mapper answers `<valtoken>` for every scalar of kind `<kind>` (kind names as in
+    `schema` lines) -/
+def parseMapperPair (s : String) : Option (Kind × Val) :=
+  match s.toList with
+  | 'm' :: rest =>
+    (match (String.ofList rest).splitOn "=" with
+     | [k, v] => do
+       let k ← parseKind k
+       let v ← parseScalarTok v
+       pure (k, v)
+     | _ => none)
+  | _ => none
+
 /-- `-` or a subset of the letters `e` (NoEmptyLists), `d` (DisallowNilMessages) -/
-def parseGenOpts (s : String) : Option GenOpts :=
+def parseOptLetters (s : String) : Option GenOpts :=
   if s == "-" then some {}
   else if s.toList.all (fun c => c == 'e' || c == 'd') then
     some { noEmptyLists := s.contains 'e', disallowNil := s.contains 'd' }
   else none
+
+/-- `<letters>` or `<letters>+m<kind>=<valtoken>,m<kind>=<valtoken>,…` (`FieldMaps`; the first pair for a
+    kind wins, like the first `FieldMapper` that answers) -/
+def parseGenOpts (s : String) : Option GenOpts :=
+  match s.splitOn "+" with
+  | [letters] => parseOptLetters letters
+  | [letters, ms] => do
+    let o ← parseOptLetters letters
+    let ps ← (ms.splitOn ",").mapM parseMapperPair
+    pure { o with mapper := fun k => (ps.find? (fun p => p.1 == k)).map (·.2) }
+  | _ => none
 
 /-- `E<n0>,<n1>,…` (`E` alone: no values) -/
 def parseEnumDecl (s : String) : Option (List Int) :=
